@@ -19,7 +19,8 @@ RULE = (
     "multi-line text, commas and double quotes; lots/aliquots parsed) x attribute selections {every single name of "
     "Tract.ATTRIBUTES - enumerated exhaustively for both writers -, random subsets and orders, optionally one unknown name} x "
     "header options {False, True, list, dict} x file state {new, existing} x mode {w, a} x writer {tracts_to_dict, "
-    "tracts_to_list, iter_to_dict, iter_to_list, tracts_to_csv, TractWriter with 1..3 write() calls, plus_cols, uid}. The "
+    "tracts_to_list, iter_to_dict, iter_to_list, tracts_to_csv - each through the TractList and through the PLSSDesc -, TractWriter "
+    "with 1..3 write() calls handed descriptions, a TractList, a plain list of tracts, a generator, a mixed list or one Tract, plus_cols, uid}. The "
     "csv file is read back with csv.reader. Non-trivial: a selected attribute is a non-empty list/dict on some tract, or a "
     "description is multi-line or quoted. Distinct = distinct case."
 )
@@ -56,6 +57,8 @@ CASE = st.fixed_dictionaries({
     "writer": st.sampled_from(["tracts_to_csv", "tracts_to_csv", "TractWriter", "TractWriter", "records"]),
     "plus_cols": st.booleans(), "uid": st.sampled_from([None, None, 0, 27]), "calls": st.integers(1, 3),
     "reopen": st.booleans(),          # TractWriter: close() and open() again between write() calls
+    "level": st.sampled_from(["TractList", "PLSSDesc"]),      # tracts_to_csv / records through the container or through the description
+    "write_form": st.sampled_from(["descs", "tractlist", "tracts", "generator", "mixed", "one_by_one"]),   # what write() is handed
 })
 
 
@@ -125,7 +128,7 @@ def oracle(c):
     _last["nt"] = any(isinstance(val(t, a), (list, tuple, dict)) and val(t, a) for t in tracts for a in attrs) or any('"' in x or "\n" in x for x in c["texts"])
     if c["writer"] == "records":
         for name, got in (("tracts_to_dict", tl.tracts_to_dict(attrs)), ("iter_to_dict", list(tl.iter_to_dict(attrs))),
-                          ("PLSSDesc.tracts_to_dict", descs[0].tracts_to_dict(*attrs))):
+                          ("PLSSDesc.tracts_to_dict", descs[0].tracts_to_dict(*attrs)), ("PLSSDesc.iter_to_dict", list(descs[0].iter_to_dict(*attrs)))):
             src = tracts if not name.startswith("PLSSDesc") else list(descs[0].tracts)
             if len(got) != len(src):
                 fails.append(Failure(f"{name}:count", f"{name}: {len(got)} records for {len(src)} tracts", **ctx))
@@ -136,7 +139,7 @@ def oracle(c):
                     fails.append(Failure(f"{name}:values", f"{name}: record {i} is {rec}, expected {want}", **ctx))
                     break
         for name, got in (("tracts_to_list", tl.tracts_to_list(attrs)), ("iter_to_list", list(tl.iter_to_list(attrs))),
-                          ("PLSSDesc.tracts_to_list", descs[0].tracts_to_list(attrs))):
+                          ("PLSSDesc.tracts_to_list", descs[0].tracts_to_list(attrs)), ("PLSSDesc.iter_to_list", list(descs[0].iter_to_list(attrs)))):
             src = tracts if not name.startswith("PLSSDesc") else list(descs[0].tracts)
             if len(got) != len(src):
                 fails.append(Failure(f"{name}:count", f"{name}: {len(got)} records for {len(src)} tracts", **ctx))
@@ -164,8 +167,12 @@ def oracle(c):
         hdr = header_arg(attrs, c["headers"])
         exp_rows = []      # (tract, extra cells)
         if c["writer"] == "tracts_to_csv":
-            tl.tracts_to_csv(attrs, fp, c["mode"], nice_headers=hdr)
-            exp_rows = [(t, []) for t in tracts]
+            if c.get("level") == "PLSSDesc":
+                descs[0].tracts_to_csv(attrs, fp, c["mode"], nice_headers=hdr)
+                exp_rows = [(t, []) for t in descs[0].tracts]
+            else:
+                tl.tracts_to_csv(attrs, fp, c["mode"], nice_headers=hdr)
+                exp_rows = [(t, []) for t in tracts]
             exp_header = expected_header(attrs, c["headers"])
         else:
             plus = ["extra A", "extra, B"] if c["plus_cols"] else None
@@ -178,9 +185,22 @@ def oracle(c):
                     w.close()
                     w.open()
                 vals = ["x1", "y,2"] if c["plus_cols"] else None
-                objs = chunk if len(chunk) != 1 else chunk[0]
-                n = w.write(objs, plus_cols=vals)
                 ts = [t for d in chunk for t in d.tracts]
+                form = c.get("write_form", "descs")
+                if form == "one_by_one" and ts:
+                    # one write() per tract would give each its own UID: keep one call, but hand over a single Tract when there is one
+                    objs = ts[0] if len(ts) == 1 else TractList(ts)
+                elif form == "tractlist":
+                    objs = TractList(ts)
+                elif form == "tracts":
+                    objs = list(ts)
+                elif form == "generator":
+                    objs = (d for d in chunk)
+                elif form == "mixed":
+                    objs = [chunk[0]] + [t for d in chunk[1:] for t in d.tracts] if chunk else []
+                else:
+                    objs = chunk if len(chunk) != 1 else chunk[0]
+                n = w.write(objs, plus_cols=vals)
                 if n != len(ts):
                     fails.append(Failure("TractWriter:write_return", f"write() returned {n} for {len(ts)} tracts", **ctx))
                 for k, t in enumerate(ts, start=1):
@@ -231,6 +251,10 @@ def alpha(num):
 
 def classes(c):
     out = [f"writer={c['writer']}", f"headers={c['headers']}", f"mode={c['mode']}", "existing" if c["existing"] else "new"]
+    if c["writer"] == "TractWriter":
+        out.append(f"write_form={c.get('write_form', 'descs')}")
+    else:
+        out.append(f"level={c.get('level', 'TractList')}")
     if c["unknown"]:
         out.append("unknown_attribute")
     if c.get("reopen") and c["writer"] == "TractWriter" and c["calls"] > 1:
@@ -259,7 +283,7 @@ def enum_attrs(tier):
 
 
 def render(c):
-    return {k: c.get(k) for k in ("texts", "attrs", "unknown", "headers", "existing", "mode", "writer", "plus_cols", "uid", "calls", "reopen")}
+    return {k: c.get(k) for k in ("texts", "attrs", "unknown", "headers", "existing", "mode", "writer", "plus_cols", "uid", "calls", "reopen", "level", "write_form")}
 
 
 SUBS = [
@@ -267,5 +291,5 @@ SUBS = [
         shards={"quick": 6, "thorough": 8}),
     Sub("random", oracle, strategy=lambda tier: CASE, nontrivial=lambda c: bool(_last.get("nt")), classes=classes, render=render,
         n={"quick": 400, "thorough": 5000}, shards={"quick": 8, "thorough": 16},
-        essential=("writer=tracts_to_csv", "writer=TractWriter", "writer=records", "headers=list", "headers=dict", "mode=a", "existing", "unknown_attribute", "reopened", "nontrivial")),
+        essential=("writer=tracts_to_csv", "writer=TractWriter", "writer=records", "level=PLSSDesc", "write_form=generator", "write_form=mixed", "headers=list", "headers=dict", "mode=a", "existing", "unknown_attribute", "reopened", "nontrivial")),
 ]
